@@ -48,7 +48,7 @@ NewConn == /\ Is("newconn") /\ Consume
            /\ sessUsed' = IF sessOf = "" THEN sessUsed ELSE sessUsed \cup {sessOf}
            /\ UNCHANGED ctxUsed
 
-TCsend == /\ Is("csend") /\ Consume /\ Ev.i = sent + 1 /\ ClientSend(Ev.close) /\ UNCHANGED aux
+TCsend == /\ Is("csend") /\ Consume /\ Ev.i = sent + 1 /\ ClientSend(Ev.close, Ev.connect) /\ UNCHANGED aux
 TCfin == /\ Is("cfin") /\ Consume /\ ClientFinish /\ UNCHANGED aux
 
 \* C02: one context per exchange, never seen before; one session per connection, never shared
@@ -80,6 +80,15 @@ TCrecv == /\ Is("crecv") /\ Consume /\ Ev.ok
                /\ Ev.t = "resp" => (h.id = Ev.id /\ h.k = Ev.k /\ h.close = Ev.close /\ h.warn = Ev.warn)
           /\ ClientRecv /\ UNCHANGED aux
 
+\* the CONNECT target was dialled (blind mode) or the proxy answers itself (MITM)
+TDial == \/ /\ Is("dial") /\ Consume /\ ConnectDial(Ev.ok) /\ UNCHANGED aux
+         \/ /\ ConnectMode = "mitm" /\ ConnectDial(TRUE) /\ UNCHANGED <<l, ctxOf, ctxUsed, sessOf, sessUsed>>
+\* bytes written by the hijacker itself reached the client: fine once (and only once) hijacked
+\* (the hijacker may already have returned when the client gets to read them)
+THjRecv == /\ Is("hjrecv") /\ Consume /\ (ps = "hijacked" \/ hjDone)
+           /\ \A j \in DOMAIN crecv : crecv[j].t # "eof"
+           /\ UNCHANGED vars /\ UNCHANGED aux
+
 THjDone == /\ Is("hjdone") /\ Consume /\ HijackerDone /\ UNCHANGED aux
 TCloseCalled == /\ Is("closecalled") /\ Consume /\ CloseCalled /\ UNCHANGED aux
 
@@ -89,12 +98,14 @@ Silent(A) == A /\ UNCHANGED <<l, ctxOf, ctxUsed, sessOf, sessUsed>>
 Settled == /\ p2c = <<>>
            /\ \/ ps = "closed"
               \/ ps = "idle" /\ c2p = <<>> /\ ~chalf /\ ~closing
+              \/ ps = "tunnel"
 TEnd == /\ Is("end") /\ Consume /\ Settled
         /\ Ev.live = Cardinality(ctxLive)               \* C02: no context outlives its exchange
         /\ UNCHANGED vars /\ UNCHANGED aux
 
 TNext == \/ NewConn \/ TCsend \/ TCfin \/ TReqMod \/ TResMod \/ TOresp \/ TCrecv \/ THjDone \/ TCloseCalled \/ TEnd
          \/ SReqMod \/ SResMod \/ SRefused
+         \/ TDial \/ THjRecv \/ Silent(TunnelEnd)
          \/ Silent(ProxyRead) \/ Silent(ProxyReadEOF) \/ Silent(ProxyReadClosing) \/ Silent(Decide) \/ Silent(Write)
 TSpec == TInit /\ [][TNext]_tvars
 
